@@ -61,6 +61,8 @@ class Module:
             from .normalize import unroll_literal_loops, fuse_nested_comprehensions
             self.norm_counts['unrolled'] = unroll_literal_loops(self.tree)
             self.norm_counts['fused'] = fuse_nested_comprehensions(self.tree)
+            from .normalize import flatten_starred_displays
+            self.norm_counts['starred_flattened'] = flatten_starred_displays(self.tree)
             ast.fix_missing_locations(self.tree)
         self.lines = source.splitlines()
         self._defs = None
